@@ -344,7 +344,7 @@ def block_diagonalize(
         for j in range(H.shape[1]):
             if i == j or (hermitian and i > j):
                 continue
-            block = H[(i, j, *zero_order)]
+            block = _convert_if_zero(H[(i, j, *zero_order)], atol=atol)
             if block is not zero:
                 if isinstance(block, (sympy.MatrixBase, sympy.Expr)) and (
                     block.is_zero_matrix
